@@ -205,6 +205,10 @@ def run(ck):
     exclusive_access(ck, prog("K1"))
     stale_state(ck, prog("K1"))
     hash_reads(ck, prog("K1"))
+    # kernels agree with the portable code only if the deferred-modulo stride stays within NMAX and every CRC back-end starts from `start`
+    from . import c09
+    ck.floor("ATOM/adler-stride:K1", c09.adler_kernels(ck, prog("K1"), "K1"), 2)
+    c09.crc_start_flow(ck, prog("K1"))
     for cfg, floor in (("K1", 9), ("K3", 12), ("K3b", 14)):
         P = prog(cfg)
         ck.configs.add(cfg)
